@@ -1,13 +1,9 @@
 import ChaiVerif.Drv.Util
 import ChaiVerif.Spec.Lit
 import ChaiVerif.Gen.Lit
+import ChaiVerif.Model.LitCfg
 namespace ChaiVerif.Drv
 open ChaiVerif
-
-def genCfg : CPCfg :=
-  { simple := Gen.simpleEscapes, simpleDefaultThrows := Gen.simpleDefaultThrows, octalMax := Gen.octalMax, hexMax := Gen.hexMax,
-    uSmall := Gen.unicodeSmall, uBig := Gen.unicodeBig, flush := Gen.flush, hexEmpty := Gen.hexEmpty, uniRead := Gen.unicodeRead,
-    lenCheck := Gen.unicodeLenCheck, surrogate := Gen.surrogate, utf8 := Gen.utf8Rows }
 
 def litTypeName : LitType → String
   | .int => "int" | .uint => "uint" | .long => "long" | .ulong => "ulong" | .llong => "llong" | .ullong => "ullong"
